@@ -56,3 +56,5 @@ LEVEL = {
             'bbolt and the shard-level insert are outside (C01/C14). Concurrent inserts into one collection are not covered.',
     'technique': 'Coq proof (termination, partition, limits, quota state machine) + verified checker on observed assignments + differential run',
 }
+
+CFG['rule'] = CFG['rule'] + ' ' + 'CDupInsert: an insert of one point whose id is already stored in the target shard (range must be reported failed, total must not move). CStored: at the end of every sequence the total reported by the shards against the number of sent ids found by individual look-ups.'
